@@ -401,6 +401,22 @@ func runC03(c *wk.Ctx) {
 					native = p10Native(vals, structName == "*P10")
 				}
 				c03NativeForm(c, t, shape, env, native, descr)
+				if structName != "" && structName != "P14" {
+					// the same native value with one field out of its bounds (Validate gives up at that field, wherever
+					// its walk over the properties has got to), then the intact one again: what an earlier, failed
+					// validation has seen must not show in a later one
+					for _, p := range supplied {
+						badVals := map[string]int64{}
+						for k, v := range vals {
+							badVals[k] = v
+						}
+						badVals[c03Names[p]] = 101
+						c03NativeForm(c, t, shape, env, p10Native(badVals, structName == "*P10"), descr)
+						c03NativeForm(c, t, shape, env, p10Native(map[string]int64{}, structName == "*P10"), descr)
+						c03NativeForm(c, t, shape, env, p10Native(vals, structName == "*P10"), descr)
+					}
+					c.Count("enumerated-objects:native struct with one bad field, then intact ones")
+				}
 				// one supplied value of the wrong type / out of bounds / an undeclared key
 				if len(supplied) > 0 && idx%4 == 0 {
 					bad := gen.CopyRaw(raw).(map[string]any)
